@@ -35,6 +35,12 @@ CORPUS = [
     {"name": "queued-interval-dropped-before-the-next-request (KeyError in _fill_stack), max_ivals=2",
      "meta": {'seed': 261, 'family': 'sing_in', 'bounds': [-1.0, 1.0], 'tol': 1.6922993682080916e-09, 'max_ivals': 2, 'fseed': 565305290},
      "hist": [['ask', 40, 1], ['tell', 12], ['tell', 8], ['tell', 6], ['tell', 10], ['tell', 5], ['tell', 33], ['tell', 37], ['tell', 1], ['tell', 14], ['tell', 34], ['tell', 4], ['tell', 38], ['tell', 13], ['tell', 0], ['tell', 7], ['tell', 9], ['tell', 2], ['tell', 3], ['tell', 36], ['tell', 39], ['tell', 11], ['tell', 35], ['tell', 15], ['tell', 16], ['ask', 7, 1], ['tell', 44], ['tell', 41], ['tell', 43], ['tell', 40], ['tell', 46], ['tell', 45], ['tell', 42], ['ask', 7, 1]]},
+    {"name": "two-queued-forced-splits-die-before-the-next-request (both halves of a late, converged parent; the skip loop of b8586d8)",
+     "meta": {"family": "three_peaks", "bounds": (0.0, 1.0), "tol": 1e-12, "max_ivals": 1000, "fseed": 0},
+     "hist": [["ask", 33, 1]] + [["tell", k] for k in range(33)] + [["ask", 6, 1]] + [["tell", k] for k in range(33, 39)]
+             + [["ask", 34, 1], ["ask", 4, 1]] + [["tell", k] for k in (70, 71, 72)] + [["ask", 4, 1]]
+             + [["tell", k] for k in (67, 68, 69, 77, 78, 79, 80, 73, 74, 75, 76)] + [["tell", k] for k in range(39, 67)]
+             + [["ask", 3, 1]] + [["tell", k] for k in (81, 82, 83)] + [["ask", 7, 1]]},
     {"name": "ask-does-not-return (min_sep test was one-sided for negative abscissae; fixed in 367d180)",
      "meta": {"family": "isqrt_left_end", "bounds": (-1.0, 1.0), "tol": 1e-10, "max_ivals": 1000, "fseed": 0},
      "sequential": 17, "max_points": 5000},
